@@ -1,7 +1,7 @@
 """C01 - doccomment text reaches the output verbatim."""
 from ..core import Report
 from ..model import Repo
-from . import atn_rules, bindings, misc_rules, render, writer_rules
+from . import atn_rules, bindings, misc_rules, protocol, render, writer_rules
 
 
 def run(rep: Report, repo: Repo, tier: str) -> None:
@@ -27,3 +27,5 @@ def run(rep: Report, repo: Repo, tier: str) -> None:
         misc_rules.rule_clean_parameters(rep, repo, "C01-R6")
     with rep.isolated():
         atn_rules.rule_doc_tokens(rep, repo, "C01-R7")
+    with rep.isolated():
+        protocol.rule_rejections(rep, repo, "C01-R8")
